@@ -18,7 +18,7 @@ COMPONENTS = {
     'stub': ['OS thread scheduling', 'clocks', 'os.urandom', 'object store (SimStore)'],
 }
 ASSUMPTIONS = ['scrypt n capped at 2**10 (cost)', 'the probe file has a single chunk, so tiny digest sizes cannot collide']
-PROBES = ['init_rejected', 'init_accepted', 'addkey_rejected', 'addkey_accepted', 'cross_unlock_tried']
+PROBES = ['near_miss_unlock_tried', 'init_rejected', 'init_accepted', 'addkey_rejected', 'addkey_accepted', 'cross_unlock_tried']
 TIERS = {'quick': {'budget_s': 60, 'batch': 20}, 'thorough': {'budget_s': 600, 'batch': 40}}
 
 BAD_INTS = [0, -1, -64, 1, 3, 7, 8.5, 64.0, '64', True, None, 10**6, 4097]
@@ -82,7 +82,7 @@ def gen_settings(rng):
 
 
 def gen_kdf(rng, p):
-    name = 'scrypt' if rng.random() >= p / 2 else rng.choice(['blake2b', 'sha2', 'aes_gcm', 'argon2'])
+    name = rng.choice(['scrypt', 'scrypt', 'scrypt', 'blake2b']) if rng.random() >= p / 2 else rng.choice(['blake2b', 'sha2', 'aes_gcm', 'argon2'])
     k = {'name': name}
     if name == 'scrypt':
         k['n'] = _maybe_bad(rng, rng.choice([2, 4, 8, 16, 1024]), p, [3, 6, 1000])
@@ -108,7 +108,8 @@ def gen_case(seed, tier):
             if rng.random() < 0.05:
                 ks['hashing'] = {'name': 'sha2'}
         keys.append({'kind': kind, 'parent': rng.randrange(0, i + 1), 'settings': ks})
-    return {'seed': seed, 'sched_seed': seed, 'settings': gen_settings(rng), 'keys': keys,
+    long_pw = rng.random() < 0.35
+    return {'seed': seed, 'sched_seed': seed, 'settings': gen_settings(rng), 'keys': keys, 'long_passwords': long_pw,
             'flavour': rng.choice(['sync', 'async']), 'N': rng.choice([1, 2, 3]),
             'opts': world.SchedOpts.swarm(rng).as_dict(),
             'probe_size': rng.choice([0, 1, 3, 4, 5])}
@@ -147,7 +148,9 @@ def _run_case(case):
         opts = world.SchedOpts.from_dict(case['opts'])
         settings = _safe_for_sim(copy.deepcopy(case['settings']))
         enc_requested = settings.get('encryption', {}) is not None
-        owner = world.Client('owner', password=b'owner password', concurrent=case['N'])
+        # long pass-phrases that agree on their first 64+ bytes (key files, sentences)
+        stem = (b'correct horse battery staple ' * 4)[:70] if case.get('long_passwords') else b''
+        owner = world.Client('owner', password=stem + b'owner password', concurrent=case['N'])
         r = W.init(owner, settings, opts)
         journal = list(W.state.journal)
         if r.hang is not None or r.crashed:
@@ -168,7 +171,7 @@ def _run_case(case):
         if encrypted:
             for i, k in enumerate(case['keys']):
                 parent = clients[k['parent'] % len(clients)]
-                new = world.Client(f'k{i}', password=f'password of key {i}'.encode(), concurrent=case['N'])
+                new = world.Client(f'k{i}', password=stem + f'password of key {i}'.encode(), concurrent=case['N'])
                 before = len(W.state.journal)
                 ks = _safe_for_sim(copy.deepcopy(k['settings'])) if k['settings'] else None
                 r = W.add_key(parent, new, shared=k['kind'] == 'shared', clone=k['kind'] == 'clone', settings=ks, opts=opts)
@@ -190,6 +193,22 @@ def _run_case(case):
                 if not _usable(W, new, case, opts, viol, f'with key {i} ({k["kind"]})', settings):
                     break
             # every key pairs with its own password only
+            if not viol:
+                async def noop(repo):
+                    return True
+                for a in clients:
+                    near = [a.password[:-1], a.password + b'\n', a.password[:64], a.password[:-1] + bytes([a.password[-1] ^ 1])]
+                    for pw in near:
+                        if pw == a.password or not pw:
+                            continue
+                        probes['near_miss_unlock_tried'] = probes.get('near_miss_unlock_tried', 0) + 1
+                        r = W.run(world.Client('x', password=pw, key=a.key, concurrent=1), noop, opts)
+                        if r.ok:
+                            viol.append({'cls': 'key-unlocks-with-foreign-password', 'sig': {'near_miss': True},
+                                         'msg': f'key of {a.name} (password of {len(a.password)} bytes) also unlocks with a different password of {len(pw)} bytes'})
+                            break
+                    if viol:
+                        break
             if not viol:
                 for a in clients:
                     for b in clients:
